@@ -251,6 +251,44 @@ theorem capFloorValue_eq_sum (Φ φ : ℝ → ℝ) (m : Mdl ℝ) (isCap : Bool) 
         + (ps.map (capletValue (realKern Φ φ) m isCap strike notional)).sum := by
   simp only [capFloorValue, capletTable, sumFrom_eq, List.sum_cons, lit_zero, zero_add]
 
+/-- `IborCapFloor.value` with the `last_fixing` argument: the first caplet is the known payoff on the FIXING when one is
+given (whatever its value — 0.0 and negative fixings included), on the curve forward only when it is `None` -/
+theorem capFloorValueFix_eq_sum (Φ φ : ℝ → ℝ) (m : Mdl ℝ) (isCap : Bool) (strike notional : ℝ) (fix : Option ℝ) (p : Period ℝ)
+    (ps : List (Period ℝ)) :
+    capFloorValueFix (realKern Φ φ) m isCap strike notional fix (p :: ps)
+      = firstValue (realKern Φ φ) isCap strike notional { p with fwd := firstFwd fix p.fwd }
+        + (ps.map (capletValue (realKern Φ φ) m isCap strike notional)).sum := by
+  simp only [capFloorValueFix, withFixing, capFloorValue_eq_sum]
+
+/-- **C08** cap − floor with a known first fixing `x`: the first term of the strip is N·α₁·df₁·(x − K) — for EVERY real x,
+in particular x = 0 (`if self.last_fixing is None`, not `if not self.last_fixing`) -/
+theorem cap_minus_floor_with_fixing {Φ φ : ℝ → ℝ} (hΦ : Symm Φ) (m : Mdl ℝ) (strike notional x : ℝ) (p : Period ℝ)
+    (ps : List (Period ℝ)) (hok : ∀ q ∈ ps, CapletOK m strike q) :
+    capFloorValueFix (realKern Φ φ) m true strike notional (some x) (p :: ps)
+        - capFloorValueFix (realKern Φ φ) m false strike notional (some x) (p :: ps)
+      = notional * p.alpha * p.df * (x - strike) + (ps.map (fraLeg m strike notional)).sum := by
+  simp only [capFloorValueFix, withFixing, firstFwd]
+  exact cap_minus_floor_eq_strip hΦ m strike notional { p with fwd := x } ps hok
+
+/-- … and without a fixing (`None`) the first term uses the curve forward -/
+theorem cap_minus_floor_without_fixing {Φ φ : ℝ → ℝ} (hΦ : Symm Φ) (m : Mdl ℝ) (strike notional : ℝ) (p : Period ℝ)
+    (ps : List (Period ℝ)) (hok : ∀ q ∈ ps, CapletOK m strike q) :
+    capFloorValueFix (realKern Φ φ) m true strike notional none (p :: ps)
+        - capFloorValueFix (realKern Φ φ) m false strike notional none (p :: ps)
+      = notional * p.alpha * p.df * (p.fwd - strike) + (ps.map (fraLeg m strike notional)).sum := by
+  simp only [capFloorValueFix, withFixing, firstFwd]
+  exact cap_minus_floor_eq_strip hΦ m strike notional p ps hok
+
+/-- a zero fixing is a fixing: the first caplet of a cap with `last_fixing = 0.0` and strike K ≥ 0 is worth 0, the first
+floorlet N·α·df·K — whatever the curve forward -/
+theorem zero_fixing_first_period (Φ φ : ℝ → ℝ) {strike : ℝ} (hK : 0 ≤ strike) (notional : ℝ) (p : Period ℝ) :
+    firstValue (realKern Φ φ) true strike notional { p with fwd := firstFwd (some 0) p.fwd } = 0 ∧
+    firstValue (realKern Φ φ) false strike notional { p with fwd := firstFwd (some 0) p.fwd }
+      = p.df * p.alpha * strike * notional := by
+  simp only [firstValue, firstFwd, if_true, Bool.false_eq_true, if_false, lit_zero, kmax, zero_sub, sub_zero]
+  rw [max_eq_right (by linarith), max_eq_left hK]
+  constructor <;> ring
+
 /-- **C08** cap / floor bounds for any number of caplets (induction over the caplet list): the first period at its
 known payoff, every later period between its discounted intrinsic value and its annuity bound -/
 theorem capFloor_bounds (h : IsNormalCdf Φ φ c) (m : Mdl ℝ) (isCap : Bool) (strike : ℝ) {notional : ℝ} (hN : 0 ≤ notional)
